@@ -132,6 +132,11 @@ func cmdCheck(args []string) int {
 		bo, boundedInfo = eng.runBounded(modTextHarness, *repo, *verif, *tier, seed)
 		extraObls = append(extraObls, bo...)
 	}
+	if id == "C17" {
+		var bo []*Obligation
+		bo, boundedInfo = eng.runBounded(fastaHarness, *repo, *verif, *tier, seed)
+		extraObls = append(extraObls, bo...)
+	}
 	if len(work) == 0 && len(extraObls) == 0 {
 		return toolFailure("no contract carries property " + id)
 	}
@@ -368,6 +373,20 @@ func cmdCheck(args []string) int {
 		ev.Coverage["bounded_obligations"] = nb
 		ev.Level = "other"
 		ev.Coverage["explanation"] = "two parts: (1) proof: the library steps the commands are built from (Minimize, Invert*, BySegment, Segment, Delete/Erase/Insert/Embed/Rotate/Slice) are under contract and discharged by SMT for all inputs; (2) BOUNDED, not proved: the per-record loops of the six commands are run through the gts binary built from the current tree on every site configuration within the bound stated in /verif/bounded/cli_bounded_test.go, and the residues written are compared with what the property prescribes; obligations named main.commands/bounded:* are outcomes of that enumeration."
+	}
+	if id == "C17" {
+		for k, v := range boundedInfo {
+			ev.Coverage[k] = v
+		}
+		nb := 0
+		for _, o := range all {
+			if o.Kind == "bounded" {
+				nb++
+			}
+		}
+		ev.Coverage["bounded_obligations"] = nb
+		ev.Level = "other"
+		ev.Coverage["explanation"] = "two parts: (1) proof: what /repo contributes to the FASTA path is under contract and discharged by SMT for all inputs - which description and which bytes Fasta.WriteTo hands to go-wrap (width 70), fmt and the writer, the dispatch of FastaWriter.WriteSeq (description = string metadata or its String(), data = the sequence's Bytes()), GenBankFields.String (version, 1-based region suffix for slices, definition), GenBank.Bytes, the writer selection (NewWriter, detectWriter, ToFileType) and the value the FASTA parser builds from the tokens it is given; (2) BOUNDED, not proved: the text itself - go-wrap, fmt and the go-pars grammar are outside the verified subset, so the real writer and the real scanner are run on every record stream within the bound stated in /verif/bounded/fasta_bounded_test.go; obligations named seqio.FastaParser/bounded:* are outcomes of that enumeration."
 	}
 	if id == "C12" {
 		for k, v := range boundedInfo {
